@@ -198,6 +198,66 @@ def oracle_truncating(case, r):
     return None, worst
 
 
+class CutoffTape:
+    """wraps emu_mps.utils._determine_cutoff_index for the duration of a run (real call, arguments and answer
+    recorded): every two-site truncation may discard at most precision² of squared weight — "normalised to
+    within the backend's precision" at the place where the norm is actually lost."""
+
+    def __init__(self):
+        self.worst = 0.0            # max discarded / max_error²
+        self.count = 0
+        self.maxlen = 0
+        self.bad = None
+
+    def __enter__(self):
+        from harness import compat
+        compat.install()
+        import emu_mps.utils as mu
+        self.mu, self.real = mu, mu._determine_cutoff_index
+
+        def rec(d, max_error):
+            i = self.real(d, max_error)
+            disc = float(d[:i].sum()) if i > 0 else 0.0
+            self.count += 1
+            self.maxlen = max(self.maxlen, int(d.shape[0]))
+            ratio = disc / (max_error * max_error)
+            if ratio > self.worst:
+                self.worst = ratio
+                if ratio > 1.0 + 1e-9:
+                    self.bad = dict(eigenvalues=int(d.shape[0]), cut=int(i), discarded=disc, max_error=float(max_error))
+            return i
+        mu._determine_cutoff_index = rec
+        return self
+
+    def __exit__(self, *a):
+        self.mu._determine_cutoff_index = self.real
+        return False
+
+
+def check_tape(rep, case, tape, stream=None):
+    rep.extra["cutoff_tape_truncations"] = rep.extra.get("cutoff_tape_truncations", 0) + tape.count
+    rep.extra["cutoff_tape_max_eigenvalues"] = max(rep.extra.get("cutoff_tape_max_eigenvalues", 0), tape.maxlen)
+    rep.extra["cutoff_tape_worst_discarded_over_precision2"] = round(
+        max(rep.extra.get("cutoff_tape_worst_discarded_over_precision2", 0.0), tape.worst), 6)
+    if tape.bad is not None:
+        b = tape.bad
+        extra = dict(stream=stream) if stream else {}
+        rep.fail(f"[mps] a truncation of {b['eigenvalues']} eigenvalues discarded squared weight {b['discarded']:.3e} > "
+                 f"precision^2 = {b['max_error'] ** 2:.3e} (cut index {b['cut']}): the state is not kept normalised to within "
+                 f"the backend's precision", ic.ser_case(case, **extra))
+
+
+def gen_bond16(rng):
+    """10-12 atom constant-drive emu-mps runs long enough for the bond dimension to exceed 16 (more than 32
+    eigenvalues per truncation), default precision"""
+    c = chain_case(rng.randint(10, 12), rng.uniform(6.5, 8.0), rng.uniform(10.0, 12.0), rng.uniform(3.0, 8.0),
+                   rng.randint(12, 16), 1e-5)
+    dt = rng.choice([20.0, 25.0])
+    c["times"] = [dt * k for k in range(c["nsteps"] + 1)]
+    c["grid_kind"] = "bond16"
+    return c
+
+
 def run_case(case):
     from harness import compat
     from pulser.backend import StateResult, Energy, EnergySecondMoment
@@ -287,7 +347,9 @@ def check(rep: Report, tier: str, seed: int) -> None:
                 "dt = 10 ns); plus an under-resolved stream (emu-mps max_krylov_dim 4-30 with 20/40 ns steps on a 5.5-7 um chain, "
                 "emu-sv 7-9 atoms with 0.3-2 us steps) where the only acceptable outcomes are RecursionError or conservation; "
                 "plus a truncating emu-mps stream (6-8 atom entangling chains, max_bond_dim 2-4, precision 1e-2/1e-3) where the "
-                "state every observable receives must have norm 1 to 1e-10 and occupation/energy must be those of that state. "
+                "state every observable receives must have norm 1 to 1e-10 and occupation/energy must be those of that state; "
+                "plus 10-12 atom runs whose bond dimension exceeds 16. Every emu-mps run is executed under a tape on "
+                "_determine_cutoff_index: each truncation may discard at most precision^2 of squared weight. "
                 "non-trivial = window of >= 3 steps or >= 2 windows")
     rep.assumptions = [
         "emu-sv Krylov step within 10*krylov_tolerance (C07) — assumed in FullClaim, validated by the drift oracle",
@@ -305,8 +367,12 @@ def check(rep: Report, tier: str, seed: int) -> None:
     for backend, count in plan:
         for _ in range(count):
             case = gen(rng, backend)
+            tape = CutoffTape()
             try:
-                r = run_case(case)
+                with tape:
+                    r = run_case(case)
+                if backend == "mps":
+                    check_tape(rep, case, tape)
             except Exception as e:
                 k = classify_exc(e)
                 rep.hist("exception_class", k)
@@ -344,14 +410,36 @@ def check(rep: Report, tier: str, seed: int) -> None:
             worst[backend] = max(worst[backend], w)
             if msg:
                 rep.fail(f"[{backend}, under-resolved Krylov space, run was not refused] " + msg, ic.ser_case(case, result=r))
+    # bond > 16 stream (emu-mps, 10-12 atoms): drift oracles + the cutoff tape on truncations of > 32 eigenvalues
+    for _ in range(2 if tier == "quick" else 30):
+        case = gen_bond16(rng)
+        rep.case(key=("bond16", case["n"], case["times"][1], case["omega"][0][0]), nontrivial=True)
+        tape = CutoffTape()
+        try:
+            with tape:
+                r = run_case(case)
+        except Exception as e:
+            k = classify_exc(e)
+            rep.hist("exception_class", k)
+            rep.fail(f"real mps back-end raised {type(e).__name__}: {e}", ic.ser_case(case), klass=k)
+            continue
+        rep.hist("bond16_more_than_32_eigenvalues", tape.maxlen > 32)
+        check_tape(rep, case, tape)
+        msg, w = oracle(case, r)
+        worst["mps"] = max(worst["mps"], w)
+        if msg:
+            rep.fail("[mps, bond > 16] " + msg, ic.ser_case(case, result=r))
     # truncating stream (emu-mps, saturated bond dimension / coarse precision): normalised state + consistency
     worst["mps_truncating"] = 0.0
     lost = 0
     for _ in range(8 if tier == "quick" else 150):
         case = gen_truncating(rng)
         rep.case(key=("trunc", case["n"], case["max_bond_dim"], case["precision"], case["omega"][0][0]), nontrivial=True)
+        tape = CutoffTape()
         try:
-            r = run_truncating(case)
+            with tape:
+                r = run_truncating(case)
+            check_tape(rep, case, tape, stream="truncating")
         except Exception as e:
             k = classify_exc(e)
             rep.fail(f"real mps back-end raised {type(e).__name__}: {e}", ic.ser_case(case, stream="truncating"), klass=k)
@@ -369,7 +457,7 @@ def check(rep: Report, tier: str, seed: int) -> None:
     except Exception as e:
         rep.extra["witness_D21_C28"] = f"{type(e).__name__} in {classify_exc(e) or 'unclassified'}"
         rep.fail(f"real mps back-end raised {type(e).__name__}: {e}", ic.ser_case(WITNESS_MPS), klass=classify_exc(e))
-    schedule_tie(rep, rng, 12 if tier == "quick" else 200)
+    schedule_tie(rep, rng, 6 if tier == "quick" else 200)
     if rep.broken and not rep.failing:
         search(rep, seed, 60 if tier == "quick" else 600)
 
@@ -401,10 +489,14 @@ def replay(rep: Report, path: str) -> int:
     for f in data.get("failing_inputs", []):
         case = f["data"]
         try:
-            if case.get("stream") == "truncating":
-                msg = oracle_truncating(case, run_truncating(case))[0]
-            else:
-                msg = oracle(case, run_case(case))[0]
+            tape = CutoffTape()
+            with tape:
+                if case.get("stream") == "truncating":
+                    msg = oracle_truncating(case, run_truncating(case))[0]
+                else:
+                    msg = oracle(case, run_case(case))[0]
+            if not msg and tape.bad is not None:
+                msg = f"a truncation discarded {tape.bad['discarded']:.3e} > precision^2 = {tape.bad['max_error'] ** 2:.3e}"
         except RecursionError:
             msg = None      # refusing an under-resolved step is an acceptable outcome
         except Exception as e:
